@@ -697,8 +697,9 @@ fn gen_cfg(rng: &mut Rng, small: bool) -> Cfg {
         (20e3f32, 820.0f32, 1e6f32)
     } else {
         let sp = *rng.pick(&[10e3f32, 20e3, 5e3, 100e3]);
-        let dr = (sp as f64 * rng.log_uniform(0.005, 0.3)) as f32;
-        let pu = ((sp + dr) as f64 * rng.log_uniform(1.0, 200.0)) as f32;
+        let dr = (sp as f64 * if rng.chance(0.8) { rng.log_uniform(0.005, 0.3) } else { rng.log_uniform(1e-4, 2.0) }) as f32;
+        // pull-up from just the divider resistance (the statement's lower limit) up to practically open circuit
+        let pu = ((sp + dr) as f64 * if rng.chance(0.8) { rng.log_uniform(1.0, 200.0) } else { rng.log_uniform(200.0, 1e8) }) as f32;
         (sp, dr, pu.max(sp + dr))
     };
     Cfg { fs_idx, softpot, dropper, pullup }
